@@ -202,6 +202,8 @@ def md_value(kind, salt, idtext, cat, ctrl=False):
         return out
     if kind == 'list':
         n = 1 + h % 3
+        if h % 7 == 3:
+            n = 5 + h % 3          # a full lineage: 5 to 7 levels
         return [_TEXTS[(h >> (4 * i)) % len(_TEXTS)] for i in range(n)]
     raise ValueError(kind)
 
